@@ -1,5 +1,9 @@
 # (property, engine, level category, level text, level note, technique, design ref)
 TABLE = [
+ ('C04', 'session-sim', 'exploration',
+  'Seeded search over operation orders in one live process (load / transpile / repeated transpile / unload / unload of an imported module / interactive re-submissions incl. erroneous texts / Runner.run over permuted or duplicated target lists; runner- and interactive-flavoured apps; cache disabled, cold, library-warm or warm): every answer is compared byte for byte (or by exception class) with a fresh process that serves only that request; other modules are observed in forked grandchildren before and after an operation; fresh answers are recomputed in exec-fresh interpreters under PYTHONHASHSEED 0, 1 and a seeded value.',
+  'Trusts: a forked child of the pristine worker as a fresh process (spot-checked by exec); sources fixed inside a session; the known-finding compensation (cascade unload) re-runs the whole session and must be free of mismatches.',
+  'deterministic simulation: seeded operation schedules against one live session, fresh-process oracle, hash-seed re-execution', 'DESIGN.md §4 C04'),
  ('C05', 'persist-sim', 'exploration',
   'Seeded search over histories (edit/touch/run/clear/lost-file, cache on/off, clock deltas and skew, one injected crash/torn write/ENOSPC/EACCES per faulted process) of the real Runner pipeline in forked simulated processes; every run is compared byte for byte with the same run from an empty cache, and with caching disabled the I/O trace must show no cache access. Includes an enumeration pass (every cache write event x offsets {0,1,half,last,+zeros}) on fixed small graphs. Sampling, not proof: right level because the property quantifies over histories x crash points of real file-system code.',
   'Trusts: the forked child as a stand-in for a fresh tranp process (spot-checked by exec), tmpfs as the file system, the clock premise (distinct contents never share an mtime), sequential histories, library-seeded cold oracle validated against truly cold runs at start-up.',
@@ -20,7 +24,6 @@ TABLE = [
 
 # applicable properties whose check is not registered yet
 PENDING = {
- 'C04': 'applicable (session-history property); check under construction in this round, not yet registered — see DESIGN.md §4 C04',
  'C06': 'applicable (history property of the runner); check under construction in this round, not yet registered — see DESIGN.md §4 C06',
  'C07': 'applicable (error containment of a long-lived loop under damaged input); check under construction in this round — see DESIGN.md §4 C07',
  'C09': 'applicable (re-entrancy of Procedure under nested/failed runs); check under construction in this round — see DESIGN.md §4 C09',
